@@ -121,7 +121,10 @@ type Noise struct {
 	// FnAlias: the callee type of call, invoke and callbr is spelled through a named function type
 	// (`%$fn0 = type void (i32)` ... `call %$fn0 @f(i32 1)`), up to six per module.
 	FnAlias bool
-	Indent  string
+	// OverwideInts: every fourth scalar integer constant is spelled v + k*2^N (a literal too wide for
+	// its type iN, which LLVM reads modulo 2^N).
+	OverwideInts bool
+	Indent       string
 }
 
 var noise Noise
